@@ -271,7 +271,8 @@ def finalize(m, tier):
     return {
         "rule": "history = parent vector over arrival order; ALL n! vectors for every n <= %d new blocks (un-mined blocks, "
                 "non-validating entry point), random vectors up to 60 blocks, and random histories of mined blocks through "
-                "the validating entry point; distinct = distinct parent vectors by digest; non-trivial = every vector "
+                "the validating entry point, and long histories (120-400 blocks) with forks 3..H-1 blocks deep that overtake; "
+                "distinct = distinct parent vectors by digest; non-trivial = every vector "
                 "(ties/reorganisations counted separately)" % nmax,
         "floors": [("histories", c.get("histories", 0), total), ("ties_observed", c.get("ties_observed", 0), 1000),
                    ("reorg_switches", c.get("reorg_switches", 0), 500), ("validated_adds", c.get("validated_adds", 0), 300),
